@@ -24,7 +24,7 @@ let take_vec toks =
 let run () =
   let pv = if Array.length Sys.argv > 1 then (match Sys.argv.(1) with "fixed" -> PFixed | "current" -> PCurrent | _ -> impl_pvariant)
            else impl_pvariant in
-  let rv = if Array.length Sys.argv > 2 then (match Sys.argv.(2) with "fixed" -> RFixed | "current" -> RCurrent | _ -> impl_rvariant)
+  let rv = if Array.length Sys.argv > 2 then (match Sys.argv.(2) with "fixed" -> RFixed | "current" -> RCurrent | "old" -> ROld | _ -> impl_rvariant)
            else impl_rvariant in
   let st = ref None in
   let stop = ref false in
@@ -76,6 +76,6 @@ let run () =
       print_string ("N" ^ String.concat "" (List.init 57 (fun t ->
           match cg_npe (z_of_int t) with Some n -> " " ^ string_of_int (int_of_z n) | None -> " -1")) ^ "\n")
     | ["variant"] -> Printf.printf "V %s %s\n" (match impl_pvariant with PCurrent -> "current" | PFixed -> "fixed")
-                       (match impl_rvariant with RCurrent -> "current" | RFixed -> "fixed")
+                       (match impl_rvariant with RCurrent -> "current" | RFixed -> "fixed" | ROld -> "old")
     | _ -> Printf.printf "badline %s\n" line
   done with End_of_file -> ())
